@@ -6,11 +6,16 @@ import vlib
 
 
 def configs():
+    """(constants, edges?)  edge coverage where the transition count allows it, state coverage beyond
+    (measured: binary L=3 <=4 keys 235 k transitions; <=8 keys 833 k transitions / 63 k states;
+    ternary L=3 <=2 keys 63 k transitions; binary L=4 <=3 keys 1.1 M transitions / 153 k states)"""
     if vlib.tier() == "thorough":
-        return [dict(Alphabet="{0,1}", KeyLen=3, MaxPresent=8, alpha=[0, 1], L=3),
-                dict(Alphabet="{0,1,2}", KeyLen=3, MaxPresent=3, alpha=[0, 1, 2], L=3),
-                dict(Alphabet="{0,1}", KeyLen=4, MaxPresent=3, alpha=[0, 1], L=4)]
-    return [dict(Alphabet="{0,1}", KeyLen=3, MaxPresent=3, alpha=[0, 1], L=3)]
+        return [(dict(Alphabet="{0,1}", KeyLen=3, MaxPresent=4, alpha=[0, 1], L=3), True),
+                (dict(Alphabet="{0,1}", KeyLen=3, MaxPresent=8, alpha=[0, 1], L=3), False),
+                (dict(Alphabet="{0,1,2}", KeyLen=3, MaxPresent=2, alpha=[0, 1, 2], L=3), True),
+                (dict(Alphabet="{0,1}", KeyLen=4, MaxPresent=2, alpha=[0, 1], L=4), True),
+                (dict(Alphabet="{0,1}", KeyLen=4, MaxPresent=3, alpha=[0, 1], L=4), False)]
+    return [(dict(Alphabet="{0,1}", KeyLen=3, MaxPresent=3, alpha=[0, 1], L=3), True)]
 
 
 def random_scenarios(rng, n, depth):
@@ -75,7 +80,7 @@ def run(pid):
     vlib.build_harness()
     exhaustive = True
     total_scn = 0
-    for c in configs():
+    for c, edges in configs():
         consts = {k: c[k] for k in ("Alphabet", "KeyLen", "MaxPresent")}
         # 1. the model satisfies the property (design level)
         r = vlib.tlc_must("MCRecordList", "MCRecordList_mc.cfg", consts=consts, timeout=1500)
@@ -83,7 +88,7 @@ def run(pid):
             raise vlib.Infra("RecordList.tla violates its own invariants - model counter-example must be replayed first:\n" + r.out[-2500:])
         rep.add_model(r)
         # 2. one scenario per reachable transition (shortest history + the step), replayed on the real index
-        scens, g, nexp = vlib.gen_scenarios("MCRecordList", "MCRecordList", consts, edges=True)
+        scens, g, nexp = vlib.gen_scenarios("MCRecordList", "MCRecordList", consts, edges=edges, timeout=3000)
         keys = [list(k) for k in itertools.product(c["alpha"], repeat=c["L"])]
         for s in scens:
             s["keys"] = keys
@@ -91,7 +96,8 @@ def run(pid):
         total_scn += len(scens)
         if not rep.cov["samples"]:
             rep.cov["samples"] = [s["ops"] for s in scens[:: max(1, len(scens) // 3)][:3]]
-        judge(rep, pid, scens, "bfs%d" % total_scn)
+        for i in range(0, len(scens), 60000):     # bounded memory: judge in chunks
+            judge(rep, pid, scens[i:i + 60000], "bfs%d.%d" % (total_scn, i))
     # 3. random longer histories over larger alphabets
     n, depth = (300, 40) if vlib.tier() == "quick" else (4000, 80)
     rs = random_scenarios(rng, n, depth)
